@@ -175,6 +175,24 @@ def make_pairs(H, ka, kb, family=False, formers=None, groups=False):
             except FuelExhausted:
                 ex.count("fuel")
                 return
+            except PanicEx as p:
+                # A template node under a *possible* binder may carry an index that is out of scope
+                # once its ancestor turns out not to bind: unify's precondition (well-scoped terms) is
+                # then violated by the harness, not by gram.  A panic on a well-scoped pair is reported.
+                m = ex.path_model()
+                case = c12.case_of(ex, m, (a, b), before) if m is not None else None
+                import c01
+                scoped = False
+                if case is not None:
+                    acc = set()
+                    c01.j_free(case["a"], 0, acc)
+                    c01.j_free(case["b"], 0, acc)
+                    scoped = all(v < len(before) for v in acc)
+                if scoped:
+                    ex.check(False, "PANIC %s (%s.rs:%s)" % (p.msg, p.module, p.line), info=info)
+                else:
+                    ex.count("outside:ill-scoped pair (precondition of unify)")
+                return
             if len(gam) != len(before):
                 ex.check(False, "B3.context-restored-by-unify", info=info)
                 return
@@ -190,6 +208,59 @@ def make_pairs(H, ka, kb, family=False, formers=None, groups=False):
             ex.check(len(gam) == len(before), "B3.context-restored-by-unify", info=info)
         return ex, body, None
     return make
+
+
+def run_skeletons(H):
+    """A1 on program skeletons (recursion, mutual recursion, local groups, a recursive definition that
+    uses a later sibling), every literal symbolic: the checker's normaliser and the evaluator compute
+    the same literal."""
+    if H.worker:
+        return
+    import c02
+    for name, src, build, syms, assumptions, info in c02.skeleton_inputs(H):
+        ex, it = H.engine(assumptions=assumptions, solver_timeout_ms=120000)
+        ex.fuel = 200000
+        it.max_call_depth = 3000
+
+        def body(ex, build=build, info=info):
+            it.call_depth = 0
+            tv = build()
+            try:
+                ev = it.resolve(it.call("evaluator", "evaluate", [tv]))
+                if ev.variant != "Ok":
+                    ex.count("stuck")
+                    return
+                v = lit_or_bool(ex, ev.fields[0])
+                n = lit_or_bool(ex, it.call("normalizer", "normalize_weak_head", [build(), VecV()]))
+            except FuelExhausted:
+                ex.count("fuel")
+                return
+            except PanicEx as p:
+                ex.check(False, "PANIC %s (%s.rs:%s)" % (p.msg, p.module, p.line), info=info)
+                return
+            if v is not None and v[0] == "lit":
+                ex.count("int")
+                ex.check(n is not None and n[0] == "lit" and z_eq(n[1], v[1]), "A1.normal-form-equals-value(int)", info=info)
+            elif v is not None and v[0] == "bool":
+                ex.count("bool")
+                ex.check(n is not None and n == v, "A1.normal-form-equals-value(bool)", info=info)
+        t0 = time.time()
+        ex.explore(body)
+        H.absorb("skeleton " + name, ex)
+        H.log("skeleton %-34s %d paths %s, %d obligations, %d discharged, %.1fs" % (name, ex.stats.paths, dict(ex.counters), ex.stats.obligations, ex.stats.discharged, time.time() - t0))
+        for v in ex.violations[:2]:
+            reproduced, detail = confirm_skeleton(H, v.label, v.info)
+            H.report(v.label, v.info, reproduced, detail)
+
+
+def confirm_skeleton(H, label, case):
+    replay = H.get_replay()
+    a = replay.call({"op": "steps", "term": case["t"], "cells": {}, "limit": 20000})
+    b = replay.call({"op": "normalize_weak_head", "term": case["t"], "cells": {}, "defs_ctx": []})
+    va = a.get("shown")
+    vb = T.show(b["result"]) if b.get("result") else str(b)
+    same = a.get("term") is not None and b.get("result") is not None and T.canon(a["term"], drop_sr=True, drop_names=True) == T.canon(b["result"], drop_sr=True, drop_names=True)
+    return (not same), "skeleton %s: evaluate gives %s, normalize_weak_head gives %s" % (case.get("skeleton"), va, vb)
 
 
 def make_group_programs(H, n):
@@ -323,6 +394,8 @@ def main():
     only = os.environ.get("C06_PARTS")
     if only:
         parts = [p for i, p in enumerate(parts) if str(i) in only.split(",")]
+    if not only or "S" in only:
+        run_skeletons(H)
     for name, mk in parts:
         t0 = time.time()
         m = parallel_explore(mk, H.jobs)
